@@ -10,7 +10,6 @@ package decryptor
 //@ func (encryptor *HashQuery) replaceValuesWithHMACs(ctx context.Context, values []base.BoundValue, placeholders []int, bindData map[int]config.ColumnEncryptionSetting) (out []base.BoundValue, changed bool, err error)
 //@   props C09
 //@   noinline calculateHmac
-//@   requires forall(j, 0, len(placeholders), 0 <= placeholders[j] && placeholders[j] < len(values))
 //@   loop 0 step every-listed-value-is-hashed: itercalled(HashQuery.calculateHmac) && itercalled(BoundValue.SetData) && sameslice(argof(HashQuery.calculateHmac)[1], ret(BoundValue.GetData)[0]) && sameslice(argof(BoundValue.SetData)[0], ret(HashQuery.calculateHmac)[0]) && ret(HashQuery.calculateHmac)[1] == nil
 //@   at call HashQuery.calculateHmac : assert arg[0] == ctx && ret(BoundValue.GetData)[1] == nil
 //@   at call BoundValue.GetData : assert recv == values[valueIndex]
